@@ -35,6 +35,7 @@
 #include <asmjit/core/emitterutils_p.h>
 #include <asmjit/x86/x86instdb_p.h>
 #include <asmjit/arm/a64instdb_p.h>
+#include <asmjit/arm/armformatter_p.h>
 #include <asmjit/x86/x86formatter.cpp>   // file-static reg_format_info (archive member is then not pulled in)
 #include <cstdio>
 #include <cstring>
@@ -183,6 +184,13 @@ struct CompilerSession {
     regs.push_back(cc.new_gp8("b8"));       // b8  gpb
     regs.push_back(cc.new_gp64("tmp_1"));   // tmp_1 gpq
     regs.push_back(cc.new_xmm("v.Lo2"));    // v.Lo2 xmm
+    regs.push_back(cc.new_gp32());          // %9  gpd
+    regs.push_back(cc.new_gp32());          // %10 gpd  (two-digit index)
+    regs.push_back(cc.new_gp64());          // %11 gpq
+    regs.push_back(cc.new_gp64("L7"));      // names at the edges of the alphabet of VirtNames.env_ok: looks like a label,
+    regs.push_back(cc.new_gp32("gpd"));     // is a register-type word,
+    regs.push_back(cc.new_xmm("9lives"));   // starts with a digit,
+    regs.push_back(cc.new_gp16("Z_.z"));    // upper case, underscore, dot
     live = true;
   }
 };
@@ -199,6 +207,7 @@ struct A64CompilerSession {
     cc.new_vec128();        // %2 q/v
     cc.new_vec128("vacc");  // vacc
     cc.new_vec(TypeId::kFloat64, "dbl");   // dbl d
+    for (int i = 0; i < 6; i++) cc.new_gp64();   // %5 .. %10 x (two-digit index)
     live = true;
   }
 };
@@ -258,6 +267,39 @@ int main() {
       o += " ne " + hex(fi.name_entries, sizeof(fi.name_entries));
       o += " ns " + hex(fi.name_strings, sizeof(fi.name_strings));
       puts(o.c_str());
+    }
+    else if (cmd == "DE") {
+      // the error-name table over its whole domain (and two codes beyond): what the messages of refused instructions start with
+      std::string out = "DE";
+      for (uint32_t i = 0; i <= uint32_t(Error::kMaxValue) + 2u; i++) out += std::string(i ? "," : " ") + DebugUtils::error_as_string(Error(i));
+      printf("%s\n", out.c_str());
+    }
+    else if (cmd == "DF") {
+      // Formatter::format_feature over the whole CpuFeatures id range of an architecture (and two ids beyond)
+      uint32_t arch; in >> arch;
+      uint32_t maxv = arch == 6 ? uint32_t(CpuFeatures::ARM::kMaxValue) : uint32_t(CpuFeatures::X86::kMaxValue);
+      std::string out = "DF";
+      for (uint32_t i = 0; i <= maxv + 2u; i++) { String sb; Formatter::format_feature(sb, Arch(arch), i); out += std::string(i ? "," : " ") + sb.data(); }
+      printf("%s\n", out.c_str());
+    }
+    else if (cmd == "DT") {
+      // Formatter::format_type_id over all 256 TypeId values
+      std::string out = "DT";
+      for (uint32_t i = 0; i < 256; i++) { String sb; Formatter::format_type_id(sb, TypeId(i)); out += std::string(i ? "," : " ") + sb.data(); }
+      printf("%s\n", out.c_str());
+    }
+    else if (cmd == "DS") {
+      // the small name tables of the formatters, over their whole domain: AArch64 condition codes 0..17, shift/extend operators 0..17,
+      // data directive words of sizes 1,2,4,8 (x86-64, AArch64), address-size words of x86 memory operands
+      std::string out = "DS";
+      for (uint32_t i = 0; i < 18; i++) { String sb; arm::FormatterInternal::format_cond_code(sb, arm::CondCode(i)); out += std::string(i ? "," : " ") + sb.data(); }
+      for (uint32_t i = 0; i < 18; i++) { String sb; arm::FormatterInternal::format_shift_op(sb, arm::ShiftOp(i)); out += std::string(i ? "," : " ") + sb.data(); }
+      for (Arch a : { Arch::kX64, Arch::kAArch64 })
+        for (uint32_t k = 0; k < 4; k++) {
+          static const TypeId tids[4] = { TypeId::kUInt8, TypeId::kUInt16, TypeId::kUInt32, TypeId::kUInt64 };
+          String sb; Formatter::format_data_type(sb, FormatFlags::kNone, a, tids[k]); out += std::string(k ? "," : " ") + sb.data();
+        }
+      printf("%s\n", out.c_str());
     }
     else if (cmd == "DN") {
       uint32_t arch; in >> arch;
@@ -591,6 +633,22 @@ int main() {
       std::string l(lg.data(), lg.data_size());
       for (char& c : l) if (c == '\n') c = '$';
       printf("KA6 %u %s %s\n", unsigned(e), bytes.c_str(), l.c_str());
+    }
+    else if (cmd == "K6") {
+      // K6 ff nv (type name)* id mnem opts extra n ops... : one AArch64 line through Formatter::format_instruction with the a64::Compiler session
+      uint32_t ff, nv; in >> ff >> nv;
+      if (!CS6.live) CS6.start();
+      for (uint32_t k = 0; k < nv; k++) { uint32_t vt; std::string nm; in >> vt >> nm; }
+      uint32_t id, opts; std::string mnem; in >> id >> mnem >> opts;
+      Operand_ ex; read_op(in, ex);
+      uint32_t n; in >> n; Operand_ ops[6]; for (auto& o : ops) o = Operand();
+      bool bad = n > 6;
+      for (uint32_t i = 0; i < n && !bad; i++) if (!read_op(in, ops[i])) bad = true;
+      if (bad) { printf("K6 <bad-command>\n"); continue; }
+      BaseInst inst(id, InstOptions(opts));
+      String sb;
+      Error e = Formatter::format_instruction(sb, FormatFlags(ff), &CS6.cc, Arch::kAArch64, inst, Span<const Operand_>(ops, 6));
+      printf("K6 %s%s\n", e == Error::kOk ? "" : "<error>", sb.data());
     }
     else if (cmd == "J") {
       uint32_t ff, nv; in >> ff >> nv;
